@@ -25,6 +25,13 @@
 (*         its own self-chosen secrets (a BEE build for both engines: two region headers from two engine  *)
 (*         configurations).  Every part is an artefact like any other: the clauses hold between the parts *)
 (*         of one build exactly as between artefacts of different builds (Parts, PartsFresh).             *)
+(*   cfg   the CONFIGURATION entry points (dictionary, YAML file, BD command file, the nxpimage command line) have an  *)
+(*         options block in which EACH secret can be pinned or left out on its own, next to options that only sit    *)
+(*         beside the secrets (SB2.1: zeroPadding, timestamp; MBI: hardware keys, values as hex strings / as files;   *)
+(*         HAB: key length).  The menu has every subset of the pinnable secrets for these entry points, Opts has     *)
+(*         every combination of the neighbouring options, and Fixed says which fields an option hands to the user    *)
+(*         (zeroPadding: the PADDING - header padding, filler words - is zero because the user asked for it).        *)
+(*         Whatever the combination: a secret that was not pinned is chosen anew for the artefact.                   *)
 EXTENDS Naturals, Sequences, FiniteSets, TLC
 
 \* ---------------------------------------------------------------------------------- what the property lists
@@ -53,7 +60,17 @@ BeeCfgOpts == {<<"engine0">>, <<"engine1">>, <<"both", "same">>, <<"both", "diff
 \* travels in an advanced-parameters object that says nothing about the secrets)
 Sb20Opts == {<<s, t>> : s \in {"unsigned", "signed"}, t \in {"now", "ts"}}
 Sb21Opts == {<<s, t>> : s \in {"sha", "nosha"}, t \in {"now", "ts"}}
+\* SB2.1 through a configuration - the dictionary load_from_config takes ("config"), a BD command file ("bd"), a YAML file handed to the
+\* nxpimage command line ("cli"): the options block has, next to dek / mac / nonce, zeroPadding ("Zero padding instead of random padding",
+\* sch_sb21.yaml: the padding, not the nonce - the nonce has an option of its own) and timestamp (overrides the time stamp of the header)
+CfgHows == {"config", "bd", "cli"}
+SbCfgOpts == {<<p, t>> : p \in {"rndpad", "zeropad"}, t \in {"now", "ts"}}
+\* encrypted MBI through a configuration: enableHwUserModeKeys off / on x the user's values (image key, CtrInitVector) written into the
+\* configuration as hex strings / as names of files
+MbiCfgOpts == {<<w, v>> : w \in {"hwk0", "hwk1"}, v \in {"hex", "file"}}
 Opts(k, h) == CASE k = "OTFAD" /\ h = "ctor" -> OtfadOpts
+                [] k \in {"SB21", "SB21KW"} /\ h \in CfgHows -> SbCfgOpts
+                [] k = "MBI" /\ h = "config" -> MbiCfgOpts
                 [] k = "IEE" /\ h = "ctor" -> {<<l, z>> : l \in IeeLocks, z \in IeeSizes}
                 [] k = "IEECTR" /\ h = "ctor" -> {<<l, z, m>> : l \in IeeLocks, z \in IeeSizes, m \in IeeCtrModes}
                 [] k = "BEE" /\ h = "ctor" -> BeeCtorOpts
@@ -66,6 +83,8 @@ Opts(k, h) == CASE k = "OTFAD" /\ h = "ctor" -> OtfadOpts
                 [] k = "HEX" /\ h = "call" -> {<<"n16">>, <<"n32">>, <<"n64">>}    \* size of the requested value
                 [] OTHER -> {<<>>}
 Dflt(k, h) == CASE k = "OTFAD" /\ h = "ctor" -> <<"ade", "vld">>
+                [] k \in {"SB21", "SB21KW"} /\ h \in CfgHows -> <<"rndpad", "now">>
+                [] k = "MBI" /\ h = "config" -> <<"hwk0", "hex">>
                 [] k = "IEE" /\ h = "ctor" -> <<"unlock", "k256">>
                 [] k = "IEECTR" /\ h = "ctor" -> <<"unlock", "k128", "ctr_addr">>
                 [] k = "BEE" /\ h = "ctor" -> <<"hdr">>
@@ -87,9 +106,15 @@ Seen(k, h, o, p) == CASE k \in {"OTFAD", "IEE", "IEECTR"} -> o                  
                       [] k = "BEE" /\ h = "ctor" -> <<IF o = <<"hdr">> THEN "lock0" ELSE o[2]>>      \* lock options word of the PRDB
                       [] k = "BEE" /\ h = "config" -> <<IF o[1] = "engine1" \/ p = 2 THEN "slot1" ELSE "slot0">>  \* the header file the part was exported to
                       [] k \in {"SB20", "SB21"} /\ h = "ctor" -> <<o[1]>>                            \* flags word of the file header
+                      [] k \in {"SB21", "SB21KW"} /\ h \in CfgHows -> o                               \* header padding all zero or not; time stamp of the header = the given one or not
                       [] k = "HEX" -> o                                                              \* length of the value
                       [] k = "HAB" /\ h = "config" -> o                                              \* length of the DEK file the build wrote
                       [] OTHER -> <<>>
+
+\* fields an OPTION hands to the user: with zeroPadding the padding of an SB2.1 file (header padding, the filler word of wrapped key blobs) is
+\* what the user asked for - zero, or whatever SPSDK does there: not asserted.  Nothing else: DEK, MAC key and nonce are no padding.
+Fixed(k, h, o) == IF k \in {"SB21", "SB21KW"} /\ h \in CfgHows /\ o # <<>> /\ o[1] = "zeropad"
+                  THEN (IF k = "SB21KW" THEN {"hpad", "filler1", "filler2"} ELSE {"hpad"}) ELSE {}
 
 \* menu of constructions: kind of artefact, how it is built, which fields the user supplies (ex), with which options (opt; M: the default ones);
 \* base = a member of the base menu (the variant with the fewest user-supplied fields of its (kind, how))
@@ -99,11 +124,22 @@ Menu == {
   M("SB20", "ctor", <<>>, TRUE),    M("SB20", "ctor", <<"dek", "mac">>, FALSE),    M("SB20", "ctor", <<"dek", "mac", "nonce">>, FALSE),
   M("SB21", "ctor", <<>>, TRUE),    M("SB21", "ctor", <<"dek", "mac">>, FALSE),    M("SB21", "ctor", <<"dek", "mac", "nonce">>, FALSE),
   M("SB21", "config", <<>>, TRUE),  M("SB21", "config", <<"dek", "mac">>, FALSE),  M("SB21", "config", <<"dek", "mac", "nonce">>, FALSE),
+  \* configuration entry points: EVERY subset of the pinnable secrets (each of dek / mac / nonce pinned or left to SPSDK on its own)
+  M("SB21", "config", <<"dek">>, FALSE),  M("SB21", "config", <<"mac">>, FALSE),  M("SB21", "config", <<"nonce">>, FALSE),
+  M("SB21", "config", <<"dek", "nonce">>, FALSE),  M("SB21", "config", <<"mac", "nonce">>, FALSE),
+  \* the nxpimage command line (`nxpimage sb21 export -c file.yaml`: YAML file, schema validation, cert-block and key files named in the file)
+  M("SB21", "cli", <<>>, FALSE),  M("SB21", "cli", <<"dek">>, FALSE),  M("SB21", "cli", <<"mac">>, FALSE),  M("SB21", "cli", <<"nonce">>, FALSE),
+  M("SB21", "cli", <<"dek", "mac">>, FALSE),  M("SB21", "cli", <<"dek", "nonce">>, FALSE),  M("SB21", "cli", <<"mac", "nonce">>, FALSE),
+  M("SB21", "cli", <<"dek", "mac", "nonce">>, FALSE),
   \* SB2.1 file built from a COMMAND FILE with keyblob definitions and keywrap / encrypt statements ("bd": BD text, "config": the YAML form):
   \* every keywrap statement wraps an OTFAD key blob whose key, counter and range are the user's (mandatory in a keyblob definition) and
-  \* whose filler word SPSDK chooses; the wrapped blob travels as the payload of a load command inside the encrypted section
+  \* whose filler word SPSDK chooses (without zeroPadding, see Fixed); the wrapped blob travels as the payload of a load command inside the encrypted section
   M("SB21KW", "bd", <<>>, TRUE),
   M("SB21KW", "config", <<>>, TRUE),  M("SB21KW", "config", <<"dek", "mac", "nonce">>, FALSE),
+  M("SB21KW", "bd", <<"dek">>, FALSE),  M("SB21KW", "bd", <<"mac">>, FALSE),  M("SB21KW", "bd", <<"nonce">>, FALSE),  M("SB21KW", "bd", <<"dek", "mac">>, FALSE),
+  M("SB21KW", "bd", <<"dek", "nonce">>, FALSE),  M("SB21KW", "bd", <<"mac", "nonce">>, FALSE),  M("SB21KW", "bd", <<"dek", "mac", "nonce">>, FALSE),
+  M("SB21KW", "config", <<"dek">>, FALSE),  M("SB21KW", "config", <<"mac">>, FALSE),  M("SB21KW", "config", <<"nonce">>, FALSE),
+  M("SB21KW", "config", <<"dek", "mac">>, FALSE),  M("SB21KW", "config", <<"dek", "nonce">>, FALSE),  M("SB21KW", "config", <<"mac", "nonce">>, FALSE),
   M("MBI", "ctor", <<"key">>, TRUE),    M("MBI", "ctor", <<"key", "ctr_iv">>, FALSE),
   M("MBI", "config", <<"key">>, TRUE),  M("MBI", "config", <<"key", "ctr_iv">>, FALSE),
   M("OTFAD", "ctor", <<>>, TRUE),   M("OTFAD", "ctor", <<"key">>, FALSE),          M("OTFAD", "ctor", <<"key", "ctr">>, FALSE),
@@ -114,6 +150,7 @@ Menu == {
   M("BEE", "config", <<"sw_key">>, TRUE),
   MO("BEE", "config", <<"sw_key">>, <<"both", "same">>, TRUE),      \* one build, two artefacts (a member of the base menu: it takes part in every lane)
   M("HAB", "config", <<>>, TRUE),   M("HAB", "config", <<"dek">>, FALSE),          M("HAB", "config", <<"dek", "nonce">>, FALSE),
+  M("HAB", "config", <<"nonce">>, FALSE),                                          \* the nonce pinned (Decrypt_Nonce), the DEK left to SPSDK
   M("HABRT", "ctor", <<>>, TRUE),   M("HABRT", "ctor", <<"dek">>, FALSE),
   M("HEX", "call", <<>>, TRUE) }
 Kinds == {m.kind : m \in Menu}
@@ -163,7 +200,8 @@ vars == <<arts, old, proc, live, imported>>
 
 Art(a) == arts[a]
 Vals(r) == {r.val[f] : f \in Fields(r.kind)} \ {0}
-SelfVals(r) == {r.val[f] : f \in Fields(r.kind) \ r.ex} \ {0}
+Given(r) == r.ex \cup Fixed(r.kind, r.how, r.opt)                   \* the fields that are the user's: supplied, or determined by an option
+SelfVals(r) == {r.val[f] : f \in Fields(r.kind) \ Given(r)} \ {0}
 Has(a) == Vals(Art(a)) \cup old[a]                                   \* every id artefact a carries or carried
 PairOf(r) == <<r.val[CtrOf(r.kind)[1]], r.val[CtrOf(r.kind)[2]]>>
 HasPair(r) == CtrOf(r.kind) # <<>> /\ 0 \notin {PairOf(r)[1], PairOf(r)[2]}
@@ -213,7 +251,7 @@ Construct(k, h, ex, o, p, vals, excused) ==
   /\ imported
   /\ k \in Kinds /\ ex \in ExOf(k, h) /\ PartOk(k, h, ex, o, p)
   /\ DOMAIN vals \subseteq Fields(k) /\ DOMAIN vals # {} /\ \A f \in DOMAIN vals : vals[f] # 0
-  /\ NoShared(a, r, (Fields(k) \ ex) \ excused)
+  /\ NoShared(a, r, (Fields(k) \ Given(r)) \ excused)
   /\ (NonceOk(a, r) \/ ToSet(CtrOf(k)) \cap excused # {})
   /\ RecordConstruct(k, h, ex, o, p, vals)
 
@@ -230,7 +268,7 @@ Reconfigure(o, ex, vals, excused) ==
   /\ Open = 0
   /\ o \in live /\ k \in Reconf /\ ex \in ExOf(k, "config")
   /\ DOMAIN vals \subseteq Fields(k) /\ DOMAIN vals # {} /\ \A f \in DOMAIN vals : vals[f] # 0
-  /\ NoShared(a, r, (Fields(k) \ ex) \ excused)
+  /\ NoShared(a, r, (Fields(k) \ Given(r)) \ excused)
   /\ (NonceOk(a, r) \/ ToSet(CtrOf(k)) \cap excused # {})
   /\ RecordReconfigure(o, ex, vals)
 
@@ -243,7 +281,7 @@ Export(a, vals, skip, seen, excused) ==
   /\ a \in live
   /\ skip \subseteq Narrow(k) /\ DOMAIN vals = Fields(k) \ skip /\ \A f \in DOMAIN vals : vals[f] # 0
   /\ seen = Seen(k, Art(a).how, Art(a).opt, Art(a).part)
-  /\ NoShared(a, r, (Fields(k) \ r.ex) \ excused)
+  /\ NoShared(a, r, (Fields(k) \ Given(r)) \ excused)
   /\ (NonceOk(a, r) \/ ToSet(CtrOf(k)) \cap excused # {})
   /\ RecordExport(a, vals)
 
@@ -251,7 +289,7 @@ Export(a, vals, skip, seen, excused) ==
 Restart == Open = 0 /\ proc' = proc + 1 /\ live' = {} /\ imported' = FALSE /\ UNCHANGED <<arts, old>>
 
 \* ---------------------------------------------------------------------------------- the property as state invariants
-GivenVals(r) == {r.val[f] : f \in Fields(r.kind) \cap r.ex} \ {0}
+GivenVals(r) == {r.val[f] : f \in Fields(r.kind) \cap Given(r)} \ {0}
 AllSelf(a) == SelfVals(Art(a)) \cup old[a]
 \* two artefacts never share a value SPSDK chose, and SPSDK never "chooses" a value an earlier artefact got from its user
 \* (the other direction is legitimate: a user may feed the key SPSDK generated for one build into the next, e.g. HAB SecretKey_ReuseDek)
